@@ -34,6 +34,11 @@ PROPERTIES
   Act_C17_Aggregate
   Act_C17_History
   Act_C17_Authority
+  Act_C17_AppendH
+  Act_C17_AggregateH
+  Act_C17_HistoryH
+  Act_C17_StateMirrorH
+  Act_C17_AuthorityH
   Act_Rejected_NoEffect
   Act_X17_EditApplied
   Act_X17_EditRejects
